@@ -1,3 +1,9 @@
 // Pasted into misc/multistream-select/src/protocol.rs (mod verif) under cfg(kani).
 #[allow(unused_imports)]
 use super::*;
+
+pub(crate) mod c15 {
+    #[allow(unused_imports)]
+    use super::super::*;
+    include!(concat!(env!("LIBP2P_VERIF"), "/units/C15/protocol.rs"));
+}
